@@ -549,7 +549,7 @@ func init() {
 	//   Two REAL libp2p hosts built by p2p.NewHost on loopback: A = peer 0 (gater over A's topology), B = peer 1 (gater over
 	//   B's topology). A sends one message to B — through the real Broadcast, or `raw` by writing a line that smuggles
 	//   "From":<peer 7> straight into a stream. B's subscriber reports whom the message was attributed to.
-	//   A refusal is observed as "nothing delivered within 1.5 s" (can only hide a violation, never invent one).
+	//   A refusal is observed as "nothing delivered within 1.2 s" (can only hide a violation, never invent one).
 	ops["C13.conn"] = func(a []string) string {
 		ta, tb := c13Topo(a[0]+"/1"), c13Topo(a[1]+"/1")
 		hB, err := p2p.NewHost(c13Privs[1], tb, p2p.NewConnectionGate(tb), 0)
@@ -595,7 +595,7 @@ func init() {
 		default:
 			panic("via")
 		}
-		wait := 1500 * time.Millisecond
+		wait := 1200 * time.Millisecond
 		if expect {
 			wait = 15 * time.Second
 		}
@@ -718,7 +718,7 @@ func init() {
 			for i := 0; i < 200 && len(hA.Network().ConnsToPeer(c13IDs[1])) > 0; i++ {
 				time.Sleep(10 * time.Millisecond)
 			}
-			wait = 1500 * time.Millisecond
+			wait = 1200 * time.Millisecond
 		}
 		_ = cA.Broadcast(peer.IDSlice{c13IDs[1]}, []byte{2}, comm.TssKeySignMsg, "s-stale")
 		return first + "," + recv(wait)
